@@ -24,7 +24,7 @@ from mc.core import Stats
 from mc.site import Site, classify_link
 
 PROP = "C17"
-KINDS = ["P", "U", "D", "N", "F", "H", "B"]
+KINDS = ["P", "U", "D", "N", "F", "H", "B", "V"]  # V = two pages whose names differ only after a dot: x.2.md, x.3.md
 SRC = {"src/m.f90": "module mod1\n!! module doc\ninteger :: v\n!! var\nend module mod1\n", "media/pic.png": "png"}
 
 
@@ -75,6 +75,7 @@ def materialise(tree, ordered, copy_mode):
         # ordering metadata of this directory's index.md
         listed = []
         candidates = [(k, s) for (k, s, _) in names if k in ("P", "D", "U")]
+        # (dotted page names are left out of ordered_subpage lists: they follow alphabetically)
         if ordered == "reversed":
             listed = [(s + ".md" if k in ("P", "U") else s) for (k, s) in reversed(candidates)]
         elif ordered == "partial" and candidates:
@@ -99,7 +100,11 @@ def materialise(tree, ordered, copy_mode):
         title = "T" + (rel.replace("/", "_") or "root")
         files[f"pages/{rel}index.md"] = page_text(title, depth, meta)
         # effective order
-        by_name = {(s + ".md" if k in ("P", "U", "H", "B") else s): (k, s, e) for (k, s, e) in names}
+        by_name = {(s + ".md" if k in ("P", "U", "H", "B") else s): (k, s, e) for (k, s, e) in names if k != "V"}
+        for (k, s, e) in names:
+            if k == "V":
+                by_name[s + ".2.md"] = ("V2", s, e)
+                by_name[s + ".3.md"] = ("V3", s, e)
         alpha = sorted(by_name)
         order = [x for x in listed if x in by_name] + [x for x in alpha if x not in listed]
         titles = []
@@ -109,6 +114,11 @@ def materialise(tree, ordered, copy_mode):
                 files[f"pages/{rel}{s}.md"] = page_text(f"T{rel.replace('/', '_')}{s}", depth)
                 exp["pages"].append(f"{rel}{s}.html")
                 titles.append(f"T{rel.replace('/', '_')}{s}")
+            elif k in ("V2", "V3"):
+                n = k[1]
+                files[f"pages/{rel}{s}.{n}.md"] = page_text(f"T{rel.replace('/', '_')}{s}v{n}", depth)
+                exp["pages"].append(f"{rel}{s}.{n}.html")
+                titles.append(f"T{rel.replace('/', '_')}{s}v{n}")
             elif k == "U":
                 files[f"pages/{rel}{s}.md"] = page_text(None, depth)
                 exp["untitled"].append(f"{rel}{s}.md")
